@@ -215,7 +215,37 @@ type streamResult struct {
 	extraAfter  int    // values received after the producer returned although not yet closed
 	panicMsg    string // panic of the producer goroutine
 	timedOut    bool
+	parked      string // the parser is parked for good: goroutine states that show it
 	maxLen      int
+}
+
+// c13ParserParked decides, from a dump of all goroutines, whether every goroutine that runs code of package
+// io/fasta is parked on a channel or lock. The caller is the consumer and is at that moment ready to receive,
+// so a parser parked in a send cannot be waiting for it; nothing in the process can wake such a parser again.
+func c13ParserParked(dump string) (bool, string) {
+	n := 0
+	var states []string
+	for _, g := range strings.Split(dump, "\n\n") {
+		if !strings.Contains(g, "github.com/TimothyStiles/poly/io/fasta.") {
+			continue
+		}
+		n++
+		head := g
+		if i := strings.IndexByte(g, '\n'); i > 0 {
+			head = g[:i]
+		}
+		blocked := false
+		for _, st := range []string{"[chan send", "[chan receive", "[semacquire", "[select", "[sync.Mutex.Lock", "[sync.RWMutex", "[sync.WaitGroup.Wait", "[sync.Cond.Wait"} {
+			if strings.Contains(head, st) {
+				blocked = true
+			}
+		}
+		if !blocked {
+			return false, ""
+		}
+		states = append(states, head)
+	}
+	return n > 0, strings.Join(states, "; ")
 }
 
 // streamParse runs fasta.ParseConcurrent in a harness goroutine against a stalling consumer.
@@ -231,6 +261,10 @@ func streamParse(r *rand.Rand, text []byte, capacity int, stall int, dribble int
 		done <- mon.Try(func() { fasta.ParseConcurrent(rd, ch) })
 	}()
 	watchdog := time.After(120 * time.Second)
+	parkTick := time.NewTicker(100 * time.Millisecond)
+	defer parkTick.Stop()
+	parkedSeen := 0
+	probeNext := false
 	producerDone := false
 	longStallAt := r.Intn(4)
 	spinMax := []int{0, 50, 400, 3000}[r.Intn(4)]
@@ -276,8 +310,9 @@ func streamParse(r *rand.Rand, text []byte, capacity int, stall int, dribble int
 			}
 			continue
 		}
-		select {
-		case v, ok := <-ch:
+		// take handles one receive; it reports whether the run is over
+		take := func(v fasta.Fasta, ok bool) bool {
+			parkedSeen = 0
 			if !ok {
 				res.closedSeen = true
 				// wait for the producer to return (it may still panic, e.g. on a second close)
@@ -287,12 +322,48 @@ func streamParse(r *rand.Rand, text []byte, capacity int, stall int, dribble int
 				case <-watchdog:
 					res.timedOut = true
 				}
-				return res
+				return true
 			}
 			res.recs = append(res.recs, v)
+			return false
+		}
+		if probeNext {
+			// 100 ms have passed without a record. Only when the channel has nothing to offer at this moment (a
+			// parser parked in a send to this consumer would make the receive succeed) and the parser has not
+			// returned is the parser's state examined.
+			probeNext = false
+			select {
+			case v, ok := <-ch:
+				if take(v, ok) {
+					return res
+				}
+				continue
+			case p := <-done:
+				res.panicMsg = p
+				producerDone = true
+				continue
+			default:
+				if parked, states := c13ParserParked(c20Dump()); parked {
+					parkedSeen++
+					if parkedSeen >= 3 {
+						res.parked = states
+						return res
+					}
+				} else {
+					parkedSeen = 0
+				}
+			}
+		}
+		select {
+		case v, ok := <-ch:
+			if take(v, ok) {
+				return res
+			}
 		case p := <-done:
 			res.panicMsg = p
 			producerDone = true
+		case <-parkTick.C:
+			probeNext = true
 		case <-watchdog:
 			res.timedOut = true
 			return res
@@ -488,6 +559,8 @@ func runC13(w *mon.W) {
 		switch {
 		case res.timedOut:
 			w.Inconclusive(fmt.Sprintf("%s: streaming run did not finish within the 120 s wall-clock watchdog", id))
+		case res.parked != "":
+			w.Violation(id, fmt.Sprintf("ParseConcurrent (capacity %d) never returns: after %d of %d records every goroutine of the parser is parked while the consumer is ready to receive (%s)", capacity, len(res.recs), len(list), res.parked), rep)
 		case res.panicMsg != "":
 			w.Violation(id, fmt.Sprintf("ParseConcurrent (capacity %d): %s after %d of %d records", capacity, res.panicMsg, len(res.recs), len(list)), rep)
 		case res.neverClosed:
@@ -525,6 +598,8 @@ func runC13(w *mon.W) {
 		switch {
 		case res.timedOut:
 			w.Inconclusive(fmt.Sprintf("%s: streaming run did not finish within the 120 s wall-clock watchdog", id))
+		case res.parked != "":
+			w.Violation(id, fmt.Sprintf("ParseConcurrent (capacity %d) never returns: after %d of %d records every goroutine of the parser is parked while the consumer is ready to receive (%s)", capacity, len(res.recs), n, res.parked), rep)
 		case res.panicMsg != "":
 			w.Violation(id, fmt.Sprintf("ParseConcurrent (capacity %d): %s after %d of %d records", capacity, res.panicMsg, len(res.recs), n), rep)
 		case res.neverClosed:
